@@ -341,6 +341,7 @@ func checkDirAfterFault(r *ev.Run, dc dirCase, st *memory.Storage, dirRef blob.R
 		}
 		r.Note("dir_fault", pl.pos)
 		r.Note("dir_fault_kind", pl.kind)
+		r.Note("dir_fault_threshold", dc.thr())
 		r.Note("dir_fault_reader", via)
 
 		// calls 2 and 3: the same reader again, nothing fails any more
